@@ -505,6 +505,16 @@ pub fn emit(parsed: &BTreeMap<String, syn::File>) -> (String, Value) {
         s.push_str(&format!("  ⟨{}, {}, {}⟩{}\n", lean_str(f), lean_str(n), lean_str(v), if i + 1 < consts.len() { "," } else { "" }));
     }
     s.push_str("]\n\n");
+    // the same constants in a form the kernel can compare: numeric ones as numbers, every one as (name key, value key)
+    s.push_str("namespace C\n");
+    for (_, n, v) in consts.iter() {
+        let digits: String = v.chars().filter(|c| *c != '_' && !c.is_whitespace()).collect();
+        if !digits.is_empty() && digits.chars().all(|c| c.is_ascii_digit()) {
+            s.push_str(&format!("def «{}» : Nat := {}\n", n, digits));
+        }
+    }
+    s.push_str("end C\n\n");
+    s.push_str(&format!("def constKeys : List (Nat × Nat) := [{}]\n\n", consts.iter().map(|(_, n, v)| format!("({}, {})", key(n), key(v))).collect::<Vec<_>>().join(", ")));
     s.push_str(&format!("/-- Directive names written by lowering (`cardano.rs`: `name: \"…\"`). -/\ndef directivesProduced : List String := [{}]\ndef directivesProducedKeys : List Nat := [{}]\n", produced.iter().map(|x| lean_str(x)).collect::<Vec<_>>().join(", "), produced.iter().map(|x| key(x).to_string()).collect::<Vec<_>>().join(", ")));
     s.push_str(&format!("/-- Directive names the compiler looks for (`compile/mod.rs`: `… .name … == \"…\"`). -/\ndef directivesConsumed : List String := [{}]\ndef directivesConsumedKeys : List Nat := [{}]\n\n", consumed.iter().map(|x| lean_str(x)).collect::<Vec<_>>().join(", "), consumed.iter().map(|x| key(x).to_string()).collect::<Vec<_>>().join(", ")));
     s.push_str("end Tx3.Gen\n");
